@@ -838,6 +838,9 @@ func (s *Subscription) Dispose() {
 func (s *Subscription) Unsend() {
 	s.state = stateReady
 	s.indirectsent = 0
+	// The client no longer holds the resource. Queue its events until the
+	// resource is sent again; ReleaseRPCResources will unqueue them.
+	s.queueEvents(queueReasonLoading)
 
 	for _, ref := range s.refs {
 		sub := ref.sub
